@@ -131,8 +131,9 @@ def sumproduct(ranges, conv=strict, errors_as_zero=False):
 # --------------------------------------------------------------------------- comparing an observation
 
 def plain(got):
-    """a result must be a python int / float / str (no numpy scalar, no logical)"""
-    return type(got) in (int, float, str)
+    """a result must be a python int / float / str (no logical; no numpy integer, which the other functions do not
+    take for a number).  An instance of a subclass of float - MAX handing back the cell it found - is a float."""
+    return type(got) in (int, str) or isinstance(got, float)
 
 
 def as_fraction(got):
